@@ -3,7 +3,7 @@ import itertools
 import time
 import z3
 
-from .values import zcheck
+from .values import zcheck, qforall, HeapSort
 from .values import (V, Int, Str, Bool, SeqV, NONE, ABSENT, TRUE, FALSE, mk_bool, mk_int, mk_str,
                      mk_seq, truthy, clsof, keys_of, EMPTY_MAP, EMPTY_SEQ, EMPTY_SET, pystr)
 from .state import St, Unsupported, Obligation, Static, ExcVal
@@ -122,8 +122,30 @@ class Core:
             break
         return z3.simplify(z3.Select(arr, ref))
 
+    def _wf_axiom(self, st, field):
+        """well-formedness of the initial heap, stated once per field: every reference stored in it (directly,
+        or inside a list / tuple / dict stored in a $val slot) denotes an object that existed at entry"""
+        done = st.ghost.get('$wfax', frozenset())
+        if field in done or '$ap0' not in st.ghost:
+            return
+        st.ghost['$wfax'] = done | {field}
+        ap0 = st.ghost['$ap0']
+        h0 = z3.Const('H0!' + field, HeapSort)
+        r = z3.Int('wf!r')
+        cell = z3.Select(h0, r)
+        okv = lambda v: z3.Implies(V.is_obj(v), V.ref(v) < ap0)
+        st.assume(qforall([r], okv(cell), patterns=[cell]))
+        if field == '$val':
+            j = z3.Int('wf!j')
+            k = z3.String('wf!k')
+            st.assume(qforall([r, j], z3.Implies(z3.And(V.is_list(cell), j >= 0, j < z3.Length(V.items(cell))),
+                                                 okv(V.items(cell)[j]))))
+            st.assume(qforall([r, k], z3.Implies(V.is_dict(cell), okv(z3.Select(V.m(cell), k))),
+                              patterns=[z3.Select(V.m(cell), k)]))
+
     def get(self, st, objv, field):
         """objv.field for an object value (no existence check)."""
+        self._wf_axiom(st, field)
         t = self.select(st, st.H(field), V.ref(objv))
         self.wf_load(st, t)
         return t
@@ -195,6 +217,7 @@ class Core:
 
     def val(self, st, v):
         """content value of a container: the value itself if immutable, else the $val slot."""
+        self._wf_axiom(st, '$val')
         k = self.known(st, V.is_obj(v))
         if k is True:
             return self.select(st, st.H('$val'), V.ref(v))
